@@ -9,6 +9,15 @@ NOTE = ("Trusted base: clang 14 front end + clang::CFG, tools/xzfacts.cc, sa/*.p
         "of the property is NOT decided (see DESIGN.md section 4).")
 
 CLAIMED = {
+ "C03": dict(
+  text="Exhaustive finite-domain abstract evaluation (on the syntax tree/CFG, nothing executed) of the LZMA2 control-byte "
+       "decision (256 values x need_properties x need_dictionary_reset = 1024 cases) and of the pure property-byte decoders "
+       "(LZMA2 dictionary byte, lc/lp/pb byte; 256 values each) against independently written spec tables; rejection "
+       "obligations (guard present and its violating edge returns the error code) for reserved bits, VLI rules, Filter IDs, "
+       "chain rules and chunk/stream end conditions; every state enumerator of 12 decoder machines has a reachable case. "
+       "Does NOT decide that accepted streams decode to the specified bytes.",
+  technique="finite-domain abstract interpretation of decision expressions vs spec tables, guard obligations, reachability on the product graph",
+  ref="4/C03"),
  "C07": dict(
   text="Lock discipline of the threaded decoder decided by a must-lockset dataflow on the path-sensitive product graph "
        "(mythread_sync's loop variables are tracked, so lock regions are exact): every access to each shared field of the "
